@@ -13,7 +13,8 @@ import numpy as np
 RULE = ('random data sets of distinct points: (a) table metric - frame ids in X(n,1) and a callable '
         'looking distances up in a small-integer table D (symmetric metrics, asymmetric / '
         'triangle-violating tables, many ties), (b) euclidean/manhattan kernels on small-integer grids '
-        'in int8..int64/float32/float64; n 1..40, k 1..n+2, radii, init_centers, k-medoids cold/warm '
+        'in int8..int64/float32/float64; n 1..40, k 1..n+2 (+ a large-n family, oracle only: n 257..600 and n>65536 with '
+        'center indices >= 128/256/32768/65536, and k>255 clusters), radii, init_centers, k-medoids cold/warm '
         'starts (inds / labels+distances / all three, non-first tie-breaks), explicit proposals (members, '
         'other clusters, current and foreign centers), recorded random proposals, 1..6 sweeps; '
         'constructive 3-branch PAM tables + exhaustive tiny tables; a case is non-trivial when k>=2 and '
@@ -66,6 +67,11 @@ class Problem:
 
     def __init__(self, case):
         self.kindm = case['metric']
+        self.large = bool(case.get('large'))
+        self._Dm = None
+        if self.large:
+            self._init_large(case)
+            return
         if self.kindm == 'table':
             D = np.array(case['D'], dtype=float)
             self.n = len(D)
@@ -98,7 +104,46 @@ class Problem:
             self.tol = 1e-9
             # manhattan on integers is exact; euclidean involves sqrt -> rounding-sensitive cost ties
             self.exact = (self.kindm == 'manhattan')
-        self._Dm = None
+
+    def _init_large(self, case):
+        """large-n family: the data are regenerated from (gen_seed, n, dim, dtype); no n x n table is ever
+        built - the oracle computes only the columns of the reported centers"""
+        g = np.random.default_rng(case['gen_seed'])
+        n = self.n = int(case['n'])
+        self.calls = 0
+        if self.kindm == 'table':
+            pos = g.choice(4 * n, size=n, replace=False).astype(np.int64)   # distinct points on a line
+            self.X = np.arange(n).reshape(n, 1).astype(case.get('dtype', 'int64'))
+
+            def metric(X_, y, _pos=pos.copy()):
+                self.calls += 1
+                ids = np.asarray(X_).reshape(len(X_), -1)[:, 0].astype(np.int64)
+                return np.abs(_pos[ids] - _pos[int(np.asarray(y).reshape(-1)[0])]).astype(float)
+            self.metric = metric
+            self._cols = lambda cs: np.abs(pos[:, None] - pos[np.asarray(cs, dtype=np.int64)][None, :]).astype(float)
+            self.tol, self.exact = 0.0, True
+        else:
+            dim = int(case['dim'])
+            w = 2
+            while (2 * w + 1) ** dim < 2 * n:
+                w += 1
+            side = 2 * w + 1
+            cells = g.choice(side ** dim, size=n, replace=False)
+            coords = np.stack(np.unravel_index(cells, (side,) * dim), 1).astype(np.int64) - w
+            self.X = coords.astype(case['dtype'])
+            self.metric = self.kindm
+            Xf = coords.astype(float)
+            if self.kindm == 'euclidean':
+                self._cols = lambda cs: np.sqrt(((Xf[:, None, :] - Xf[np.asarray(cs, dtype=np.int64)][None, :, :]) ** 2).sum(-1))
+            else:
+                self._cols = lambda cs: np.abs(Xf[:, None, :] - Xf[np.asarray(cs, dtype=np.int64)][None, :, :]).sum(-1)
+            self.tol, self.exact = 1e-9, (self.kindm == 'manhattan')
+
+    def true_cols(self, cs):
+        """independent distances of every frame to the frames `cs` (n x len(cs))"""
+        if self.large:
+            return self._cols(cs)
+        return self.D_true[:, np.asarray(cs, dtype=np.int64)]
 
     def metric_fn(self):
         from enspara.cluster import util
@@ -160,6 +205,45 @@ def consistent_msg(P, res):
         if a[c] != j:
             return 'center %d (frame %d) carries label %d' % (j, c, int(a[c]))
         if abs(d[c]) > tol:
+            return 'center %d (frame %d) has distance %r' % (j, c, float(d[c]))
+    return None
+
+
+def consistent_msg_vec(P, res):
+    """the same predicate, vectorised over frames, using only the columns of the reported centers
+    (large-n family)"""
+    n = P.n
+    inds, a, d, centers = res['inds'], res['assign'], res['dist'], res['centers']
+    k = len(inds)
+    if a.shape != (n,) or d.shape != (n,):
+        return 'labels/distances do not have one entry per frame (%s, %s)' % (a.shape, d.shape)
+    if len(centers) != k:
+        return 'number of center frames (%d) != number of center indices (%d)' % (len(centers), k)
+    for j, c in enumerate(inds):
+        if not (0 <= c < n):
+            return 'center index %d out of range' % c
+        cj = np.asarray(centers[j])
+        if cj.shape != P.X[c].shape or not np.array_equal(cj, P.X[c]):
+            return 'center %d is not the data frame at its reported index %d' % (j, c)
+    if not np.issubdtype(a.dtype, np.integer):
+        return 'labels are not integers'
+    a = a.astype(np.int64)
+    if n and (a.min() < 0 or a.max() >= k):
+        return 'label outside [0, %d)' % k
+    M = P.true_cols(inds)
+    want = M[np.arange(n), a]
+    bad = np.abs(d - want) > P.tol * np.maximum(1.0, np.abs(want))
+    if bad.any():
+        f = int(np.argmax(bad))
+        return 'frame %d: reported distance %r != metric distance %r to its center' % (f, float(d[f]), float(want[f]))
+    closer = M < (d - P.tol * np.maximum(1.0, np.abs(d)))[:, None]
+    if closer.any():
+        f, j = [int(x) for x in np.argwhere(closer)[0]]
+        return 'frame %d: center %d (frame %d) is strictly closer (%r < %r)' % (f, j, inds[j], float(M[f, j]), float(d[f]))
+    for j, c in enumerate(inds):
+        if a[c] != j:
+            return 'center %d (frame %d) carries label %d' % (j, c, int(a[c]))
+        if abs(d[c]) > P.tol:
             return 'center %d (frame %d) has distance %r' % (j, c, float(d[c]))
     return None
 
@@ -587,6 +671,107 @@ def three_branch_case(rng):
     return {'metric': 'table', 'D': D.tolist(), 'dtype': 'int64', 'style': '3branch'}
 
 
+LARGE_KINDS = ('kcenters', 'KCenters.fit', 'hybrid', 'KHybrid.fit', 'kmedoids', 'KMedoids.fit', 'pam_update', 'assign')
+
+
+def consistent_state_large(rng, P, inds):
+    M = P.true_cols(inds)
+    m = M.min(1)
+    assign = np.empty(P.n, dtype=int)
+    for f in np.flatnonzero((M == m[:, None]).sum(1) > 1):      # random choice among tied nearest centers
+        assign[f] = int(rng.choice(np.flatnonzero(M[f] == m[f])))
+    single = (M == m[:, None]).sum(1) == 1
+    assign[single] = np.argmin(M, 1)[single]
+    return {'inds': [int(i) for i in inds], 'assign': [int(x) for x in assign], 'dist': [float(x) for x in m]}
+
+
+def gen_large_case(rng, kind=None, n=None, k=None, big_k=False):
+    """sizes beyond the narrow integer types: frame indices >= 128 / 256 (/ 32768 / 65536) among the
+    centers, optionally more than 255 clusters (labels >= 128, >= 256)"""
+    kind = kind or str(rng.choice(LARGE_KINDS))
+    n = int(n or rng.integers(257, 601))
+    style = str(rng.choice(['table', 'euclidean', 'manhattan'], p=[.3, .35, .35]))
+    c = {'large': True, 'n': n, 'gen_seed': int(rng.integers(0, 2 ** 31)), 'metric': style, 'kind': kind,
+         'style': 'large'}
+    if style == 'table':
+        c['dtype'] = str(rng.choice(['int64', 'int32', 'float64']))
+    else:
+        c['dim'] = int(rng.integers(2, 4)) if n < 5000 else 3
+        c['dtype'] = str(rng.choice(['int8', 'int16', 'int32', 'int64', 'float32', 'float64']))
+    P = Problem(c)
+    lt = []
+    if big_k:
+        k = int(k or rng.integers(256, min(n, 330) + 1))
+        lt.append('k>255')
+    else:
+        k = int(k or rng.integers(2, 7))
+    # centers: at least one frame index beyond every narrow-integer boundary that n allows
+    want = [b for b in (128, 256, 32768, 65536) if b < n]
+    inds = set()
+    for b in want[-2:]:
+        inds.add(int(rng.integers(b, n)))
+    while len(inds) < k:
+        inds.add(int(rng.integers(0, n)))
+    inds = [int(i) for i in rng.permutation(sorted(inds))][:max(k, 1)]
+    if max(inds) >= 256:
+        lt.append('center-index>=256')
+    if max(inds) >= 65536:
+        lt.append('center-index>=65536')
+    if n > 65536:
+        lt.append('n>65536')
+    c['large_tags'] = lt
+    if kind == 'assign':
+        c['centers'] = inds
+    elif kind in ('kcenters', 'KCenters.fit', 'hybrid', 'KHybrid.fit'):
+        c['init'] = inds
+        c['init_form'] = str(rng.choice(['array', 'list']))
+        c['n_clusters'] = len(inds) + int(rng.integers(0, 4))
+        c['cutoff'] = None
+        if kind in ('hybrid', 'KHybrid.fit'):
+            c['n_iters'] = int(rng.integers(1, 3)) if not big_k else 1
+            c['rs'] = 'rec' if rng.random() < 0.7 else 'int'
+            c['seed'] = int(rng.integers(0, 2 ** 31))
+    else:
+        st = consistent_state_large(rng, P, inds)
+        c['state'] = st
+        c['inds_form'] = str(rng.choice(['list', 'array']))
+        c['n_iters'] = 1
+        c['seed'] = int(rng.integers(0, 2 ** 31))
+        if kind == 'pam_update':
+            c['rs'] = 'rec'
+        else:
+            c['warm'] = str(rng.choice(['inds', 'ad', 'all'], p=[.5, .25, .25]))
+            c['rs'] = 'global' if kind == 'KMedoids.fit' else ('rec' if rng.random() < 0.7 else 'int')
+        if kind != 'KMedoids.fit' and n <= 1000 and not big_k and rng.random() < 0.4:
+            c['proposals'] = gen_proposals(rng, P, st)
+            c['props_form'] = str(rng.choice(['list', 'array']))
+    return c
+
+
+def large_family(ctx):
+    """the large-n cases of one run (both tiers; oracle only)"""
+    rng = ctx.rng
+    cases = []
+    for kind in LARGE_KINDS:
+        for _ in range(ctx.n(2, 12)):
+            cases.append(gen_large_case(rng, kind=kind))
+    # more than 255 clusters (labels >= 128 / >= 256, center indices >= 256)
+    cases.append(gen_large_case(rng, kind='assign', n=int(rng.integers(300, 420)), big_k=True))
+    ck = gen_large_case(rng, kind='kcenters', n=int(rng.integers(300, 420)), k=3)
+    ck['n_clusters'] = int(rng.integers(257, 300))          # cold growth past 255 centers
+    ck['large_tags'] = ck['large_tags'] + ['k>255']
+    cases.append(ck)
+    cases.append(gen_large_case(rng, kind='kmedoids', n=int(rng.integers(280, 340)), big_k=True))
+    for _ in range(ctx.n(0, 3)):
+        cases.append(gen_large_case(rng, kind=str(rng.choice(['pam_update', 'hybrid', 'KCenters.fit'])),
+                                    n=int(rng.integers(300, 420)), big_k=True))
+    # more than 65536 frames (uint16 / int16 boundaries), a center beyond index 65536
+    for kind in (['kcenters', 'kmedoids'] if not ctx.thorough else
+                 ['kcenters', 'KCenters.fit', 'hybrid', 'KHybrid.fit', 'kmedoids', 'pam_update', 'assign']):
+        cases.append(gen_large_case(rng, kind=kind, n=int(rng.integers(65600, 70000)), k=int(rng.integers(2, 5))))
+    return cases
+
+
 def gen_case(rng, kind=None, nmax=14):
     kind = kind or str(rng.choice(ENTRY_KINDS, p=[.14, .08, .24, .08, .2, .14, .08, .04]))
     c = gen_problem_case(rng, nmax=nmax, nmin=2 if kind != 'kcenters' else 1)
@@ -723,6 +908,9 @@ def phase1(ctx, case, area='C01'):
         tags.append('explicit-proposals')
     if case.get('tri'):
         tags.append('triangle-shortcut')
+    if P.large:
+        tags.append('large-n')
+        tags += case.get('large_tags', [])
     k_guess = len(out['ok']['inds']) if 'ok' in out else 0
     if 'ok' in out:
         tags.append('k=1' if k_guess == 1 else 'k=n' if k_guess == P.n else 'k>n' if k_guess > P.n else '1<k<n')
@@ -770,7 +958,7 @@ def phase1(ctx, case, area='C01'):
             rec['bad'] = True
             return rec
     else:
-        msg = consistent_msg(P, out['ok'])
+        msg = consistent_msg_vec(P, out['ok']) if P.large else consistent_msg(P, out['ok'])
         if msg is None:
             msg = check_attrs(P, out)
         if msg is None and out.get('modified'):
@@ -804,6 +992,10 @@ def phase1(ctx, case, area='C01'):
         ctx.tag('seed-reproducible')
         return rec
     if not USE_MODEL:
+        return rec
+    if P.large:
+        # an n x n table of rationals is too large to ship: oracle only
+        ctx.tag('model-skipped-large-n')
         return rec
     initial = None
     if kind == 'kmedoids' and case.get('warm', 'cold') == 'cold':
@@ -943,13 +1135,15 @@ def _run(ctx):
         cases.append(gen_case(rng))
     for _ in range(ctx.n(40, 800)):   # larger
         cases.append(gen_case(rng, nmax=40))
+    cases += large_family(ctx)
     cases += list(tiny_tables(ctx, 3))
     cases += list(tiny_tables(ctx, 4, limit=ctx.n(150, 100000)))
     if ctx.thorough:
         cases += list(tiny_tables(ctx, 5, values=(1, 2), limit=4000))
     check_cases(ctx, cases)
     need = ['pam-branch-dn', 'pam-branch-other', 'pam-branch-this', 'pam-accept', 'pam-reject',
-            'pam-all-three-branches', 'model-agrees', 'sweep-by-sweep-agrees', 'assign-argmin-branch']
+            'pam-all-three-branches', 'model-agrees', 'sweep-by-sweep-agrees', 'assign-argmin-branch',
+            'large-n', 'center-index>=256', 'k>255', 'n>65536']
     ctx.note('under_covered', [t for t in need if not ctx.tags.get(t)])
 
 
